@@ -39,7 +39,61 @@ func mapperGuardedSites(c *Ctx) (guarded map[ssa.Instruction]bool, all []ssa.Cal
 				return
 			}
 			obj := core.CalleeObj(call.Common())
-			if obj == nil || obj.Name() != "MapStringsToUUIDs" {
+			if obj == nil {
+				// resolve := manager.MapStringsToUUIDs; if m.ReadOnly { resolve = manager.MapStringsToUUIDsReadOnly };
+				// resolve(ctx, s...): the writing method may only flow in over an edge on which
+				// ReadOnly is false
+				ph, isPhi := call.Common().Value.(*ssa.Phi)
+				if !isPhi {
+					return
+				}
+				writes := func(v ssa.Value) bool {
+					mc, ok := v.(*ssa.MakeClosure)
+					if !ok {
+						return false
+					}
+					f, ok := mc.Fn.(*ssa.Function)
+					return ok && strings.Contains(f.Name(), "MapStringsToUUIDs") && !strings.Contains(f.Name(), "ReadOnly")
+				}
+				nW, okAll := 0, true
+				for i, e := range ph.Edges {
+					if !writes(e) {
+						continue
+					}
+					nW++
+					edgeOK := false
+					for _, cd := range core.CondsOnEdge(ph.Block().Preds[i], ph.Block()) {
+						if !cd.True && isReadOnlyLoad(cd.V, fn) {
+							edgeOK = true
+						}
+					}
+					if !edgeOK {
+						okAll = false
+					}
+				}
+				if nW == 0 {
+					return
+				}
+				all = append(all, call)
+				if okAll {
+					guarded[ins] = true
+					// taking the method value is the reference the call graph records: it is used
+					// only through this guarded edge
+					// (the call graph attaches the reference to the instruction that uses the
+					// method value: this phi)
+					onlyHere := true
+					for _, e := range ph.Edges {
+						if mc, ok := e.(*ssa.MakeClosure); ok && writes(e) && (mc.Referrers() == nil || len(*mc.Referrers()) != 1) {
+							onlyHere = false
+						}
+					}
+					if onlyHere {
+						guarded[ph] = true
+					}
+				}
+				return
+			}
+			if obj.Name() != "MapStringsToUUIDs" {
 				return
 			}
 			all = append(all, call)
